@@ -109,6 +109,18 @@ CHECKS["C07"] = (
     "DESIGN.md 4.2, 5 (C07)", _IXS_NOTE,
     "TLA+ spec of document-level commit semantics + trace validation of random histories")
 
+CHECKS["C15"] = (
+    "model_checking",
+    "QuerySem!Denote of the ORIGINAL query is evaluated by TLC and compared with the documents matched by 13 "
+    "rewritten forms (normalize, normalize twice, & | -, with_boost, replace of an absent term, apply/accept "
+    "identity, deepcopy, pickle, simplify) on real multi-segment indexes; idempotence and absence of exceptions "
+    "are recorded facts, estimate_size() is judged as an upper bound on |Denote|.",
+    "DESIGN.md 4.6, 5 (C15)",
+    "Random trees (depth <= 2) plus targeted range compounds with touching/nested/duplicate end points; fuzzy "
+    "terms excluded (C19). Two test-pinned And.normalize() behaviours are recorded findings, recognised by "
+    "re-running the identical rewrite with the single method corrected (harness/patches.py).",
+    "TLA+ denotational spec as oracle for rewritten queries (code->spec)")
+
 NOT_YET = {}
 
 
